@@ -193,9 +193,11 @@ impl<'a> Rt<'a> {
             panic!("can only crash host's software");
         }
 
-        if self.handle.take().is_some() {
-            self.cancel_tasks();
-        };
+        // The software's main future may already have returned while tasks it
+        // spawned are still parked on the `LocalSet`, owning sockets and other
+        // host resources. Cancel them too: nothing survives a crash.
+        self.handle.take();
+        self.cancel_tasks();
     }
 
     pub(crate) fn bounce(&mut self) {
